@@ -177,6 +177,9 @@ func (r *runner) profileChecks(views map[string]*LedgerView, commits []CommitRec
 	if r.has("bulk") {
 		r.addV(checkBulk(r, views)...)
 	}
+	if r.has("refused-leaves-nothing") {
+		r.addV(checkRefusedLeavesNothing(r, commits)...)
+	}
 	if r.has("transport") {
 		r.addV(checkTransport(r, views)...)
 	}
